@@ -49,7 +49,11 @@ Definition fail (w : world) (why : Z) : world :=
   if w_ok w then mkW (w_slots w) false why (w_pc w) (w_pre w) (w_out w) else w.
 
 (* apply a label on interface i; a label the model does not accept marks the replay as failed *)
-Definition arm (s : slot) : slot := match step s LFwArm with Some s' => s' | None => s end.
+Definition arm (s : slot) : slot :=
+  match step s LFwArm with
+  | Some s' => s'
+  | None => match step s LFwLook with Some s' => s' | None => s end
+  end.
 
 (* which critical sections end with l.cond.Broadcast() (or are followed by one): only then do the
    goroutines parked in cond.Wait() look at the state again *)
